@@ -267,6 +267,16 @@ def resetsFlagOnFailure : List V2Line → Bool
     (l.el == .whenElse && (blockAfter l.depth ls).any (lineIs (isAssign "output_rails_in_progress" "False")))
     || resetsFlagOnFailure ls
 
+/-- Does the `_user_said`-style override reset `$output_rails_in_progress` at top level, before it awaits the input
+    rails?  (The shape of the repair in `fixes/C02-v2-output-rails-flag-new-user-message.diff`: whatever an earlier turn
+    left in a live State object — e.g. a Python exception tearing through `run output rails` — a new user message
+    starts with the output rails NOT in progress.) -/
+def resetsFlagOnUserMessage : List V2Line → Bool
+  | [] => false
+  | l :: ls =>
+    if lineIs (isAwait "run input rails") l then false
+    else (l.depth == 0 && lineIs (isAssign "output_rails_in_progress" "False") l) || resetsFlagOnUserMessage ls
+
 /-- A 2.x rail flow of the self-check shape: the `abort` that follows the exception `send` is at the
     level of `if not $allowed` (depth 1), not nested under the `else` (depth 2). -/
 def abortAtIfLevel (prog : List V2Line) : Bool :=
